@@ -116,7 +116,7 @@ def resolve(table):
         for i, u in enumerate(t["units"]):
             u = dict(u)
             u["decl"] = i
-            u["const"] = const_name(u["id"])
+            u["const"] = u.get("const") or const_name(u["id"])
             u["variant"] = variant_name(u["id"])
             u["name"] = u["id"].replace("_", " ")
             u["ref"] = bool(u.get("ref"))
